@@ -394,6 +394,11 @@ class SimS3:
     def head_object(self, **kwargs):
         def effect(rec):
             k = (kwargs['Bucket'], kwargs['Key'])
+            if kwargs.get('VersionId') is not None:
+                v = getattr(self, 'versions', {}).get(k + (kwargs['VersionId'],))
+                if v is None:
+                    raise client_error('404', 'Not Found', 'HeadObject')
+                return {'ContentLength': len(v), 'ETag': '"obj"', 'ResponseMetadata': {}}
             if k not in self.objects:
                 raise client_error('404', 'Not Found', 'HeadObject')
             return {'ContentLength': len(self.objects[k]),
@@ -489,11 +494,21 @@ class SimS3:
 
     def _copy_source(self, kwargs, op):
         src = kwargs['CopySource']
+        vid = None
         if isinstance(src, dict):
             k = (src['Bucket'], src['Key'])
+            vid = src.get('VersionId')
         else:
             b, _, key = src.partition('/')
+            key, _, q = key.partition('?versionId=')
+            vid = q or None
             k = (b, key)
+        if vid is not None:
+            # a named (non-current) version of the source object
+            v = getattr(self, 'versions', {}).get(k + (vid,))
+            if v is None:
+                raise client_error('NoSuchVersion', 'copy source version missing', op)
+            return v
         if k not in self.objects:
             raise client_error('NoSuchKey', 'copy source missing', op)
         return self.objects[k]
